@@ -175,6 +175,30 @@ func (lv *LeafVariants) remainsToExist() bool {
 	return intentRemains || runningRemains || defaultRemains
 }
 
+// remainsExplicitly is remainsToExist without the schema defaults: a value set by an intent stays, or,
+// where no intent holds the leaf, the device runs one.
+func (lv *LeafVariants) remainsExplicitly() bool {
+	lv.lesMutex.RLock()
+	defer lv.lesMutex.RUnlock()
+	intentOwned, intentRemains, runningRemains := false, false, false
+	for _, l := range lv.les {
+		switch l.Owner() {
+		case RunningIntentName:
+			runningRemains = runningRemains || !l.GetDeleteFlag()
+		case DefaultsIntentName:
+		default:
+			intentOwned = true
+			if !l.GetDeleteFlag() || l.GetDeleteOnlyIntendedFlag() {
+				intentRemains = true
+			}
+		}
+	}
+	if intentOwned {
+		return intentRemains
+	}
+	return runningRemains
+}
+
 func (lv *LeafVariants) GetHighestPrecedenceValue() int32 {
 	lv.lesMutex.RLock()
 	defer lv.lesMutex.RUnlock()
